@@ -269,7 +269,7 @@ pub fn gen_session(rng: &mut Rng, cfg: &GenCfg, nops: usize, max_len: usize, lat
             _ => {
                 if isp && has_space {
                     let s1 = gen_sentence(rng, &d, max_len);
-                    let s2 = respace(rng, &s1);
+                    let s2 = respace_with(rng, &s1, &dict_spaces(&d));
                     ops.push(Op::Respace { w, s1, s2 });
                     tokd[w - 1] = true;
                 }
@@ -320,7 +320,7 @@ pub fn record(a: &HashMap<String, String>) -> i32 {
                         Op::Reset { s, .. } => *s = gen_sentence(&mut r, &si.d, max_len),
                         Op::Respace { s1, s2, .. } => {
                             *s1 = gen_sentence(&mut r, &si.d, max_len);
-                            *s2 = respace(&mut r, s1);
+                            *s2 = respace_with(&mut r, s1, &dict_spaces(&si.d));
                         }
                         _ => {}
                     }
